@@ -67,7 +67,7 @@ def setup_worker():
 
 def plan(tier):
     if tier == 'thorough':
-        return {'cases': 120000, 'chunk': 100, 'budget_s': 1500, 'case_timeout_s': 60, 'minimise_budget_s': 120}
+        return {'cases': 300000, 'chunk': 100, 'budget_s': 1500, 'case_timeout_s': 60, 'minimise_budget_s': 120}
     return {'cases': 12000, 'chunk': 25, 'budget_s': 70, 'case_timeout_s': 60, 'minimise_budget_s': 60}
 
 
